@@ -942,7 +942,7 @@ fn gen_image_doc(rng: &mut Rng) -> J {
         4 => 4,
         _ => 3,
     };
-    let want = (c as u128 * h as u128 * w as u128).min(64) as usize;
+    let want = (c as u128).saturating_mul(h as u128).saturating_mul(w as u128).min(64) as usize;
     let size = if rng.chance(1, 4) { gen_size_j(rng) } else if rng.chance(1, 2) { J::A(vec![J::U(h), J::U(w)]) } else { obj(vec![("height", J::U(h)), ("width", J::U(w))]) };
     let mut fields: Vec<(String, J)> = vec![];
     if !rng.chance(1, 12) {
